@@ -61,6 +61,11 @@ def base_docs():
     # identifiers may contain '.', '-' and '/': a dotted META field next to its own prefix, dotted body keys
     docs.append(("dotted", Doc([A("A.B", S("ab")), A("A", S("a")), A("X-Y", I(1)), A("P/Q", S("pq"))], name="D",
                                meta=[("TYPE", S("T")), ("SPEC", S("s")), ("SPEC.VERSION", S("6.0", "quoted")), ("SPEC.VERSION.MINOR", I(1))], separator=True)))
+    # keys the emitter treats specially (GH#310: string values under PATTERN / REGEX are always quoted) holding NON-string values: explicit
+    # null, booleans, numbers - at top level (request targets and unmentioned bystanders), inside a block and as an inline-map member
+    docs.append(("special_keys", Doc([A("PATTERN", dm.NULL), A("REGEX", S("^a$", "quoted")), A("OTHER", S("o")),
+                                      B("BLK", [A("PATTERN", Bo(False)), A("REGEX", dm.NULL), A("X", I(1))]),
+                                      A("L", Lst(dm.Map(("PATTERN", dm.NULL)), dm.Map(("REGEX", I(7))))), A("TAIL", I(0))], name="D", meta=[("TYPE", S("T"))], separator=True)))
     return docs
 
 
